@@ -192,16 +192,34 @@ def fused_cases(draw):
             shared_nodes.append({"k": "storage", "level": "GLB", "tensors": [t]})
         if p < ns:
             shared_nodes.append(shared_loops[p])
-    tree = [{"k": "storage", "level": "Main", "tensors": main_t}] + shared_nodes + [{"k": "seq", "branches": branches}]
+    # optionally hold one non-intermediate tensor persistently in the GLB (top of the mapping), with several
+    # workload instances: persistent reservations live throughout and scale with the instance count
+    persistent_nodes = []
+    n_instances = 1
+    # reuse-normal form also for the persistent node: the first loop below it must not index the tensor
+    def first_loop_ok(t):
+        if ns:
+            return shared_loops[0]["rv"] not in proj[t]
+        return last_slot_ok(t)
+
+    cand = [t for t in main_t if t not in shared_t and t not in inter and first_loop_ok(t)]
+    if cand and draw(st.integers(0, 2)) == 0:
+        pt = draw(st.sampled_from(cand))
+        persistent_nodes = [{"k": "storage", "level": "GLB", "tensors": [pt], "persistent": True}]
+        for br in branches:          # a tensor has at most one GLB node on a path
+            br[:] = [x for x in br if not (x["k"] == "storage" and x["level"] == "GLB" and x["tensors"] == [pt])]
+        n_instances = draw(st.sampled_from([1, 2, 3]))
+    tree = ([{"k": "storage", "level": "Main", "tensors": main_t}] + persistent_nodes + shared_nodes
+            + [{"k": "seq", "branches": branches}])
     bits = draw(st.sampled_from([8, 16]))
     bpv = {draw(st.sampled_from(all_t)): draw(st.sampled_from([4, 32]))} if draw(st.integers(0, 3)) == 0 else None
     nodes = [mem_node("Main", "inf"), mem_node("GLB", "inf", bpv), {"type": "Compute", "name": "MAC", "compute": [1, 1], "leak": 0}]
     nodes[0]["keep"] = "~Intermediates" if fused_t else "All"
     if fused_t:
         nodes[1]["keep"] = "~Main"
-    spec = {"einsums": es, "bounds": bounds, "bits": {"All": bits}, "nodes": nodes, "shape": shape}
+    spec = {"einsums": es, "bounds": bounds, "bits": {"All": bits}, "nodes": nodes, "shape": shape, "n_instances": n_instances}
     return {"kind": "fused", "spec": spec, "tree": tree, "fused": fused_t, "n_shared_loops": len(shared_loops),
-            "size_choice": {"GLB": draw(st.integers(0, 5))}}
+            "persistent": bool(persistent_nodes), "size_choice": {"GLB": draw(st.integers(0, 5))}}
 
 
 @st.composite
@@ -287,7 +305,7 @@ def nested_cases(draw):
 
 def ref_peaks(desc):
     einsums, bounds, comps, wl_bits = GM.to_ref(desc)
-    ex = RX.Executor(einsums, bounds, comps, wl_bits)
+    ex = RX.Executor(einsums, bounds, comps, wl_bits, n_instances=desc["spec"].get("n_instances", 1))
     res = ex.run(desc["tree"])
     return dict(res.peak_bits), res
 
@@ -346,8 +364,9 @@ def check(desc, col):
                 seen_free = True
             elif seen_free:
                 partial = True
-        nontrivial = bool(desc["fused"] and desc["n_shared_loops"]) or partial or tight
+        nontrivial = bool(desc["fused"] and desc["n_shared_loops"]) or partial or tight or bool(desc.get("persistent"))
         labels = [f"fused:{desc['spec']['shape']}", "intermediate_in_glb" if desc["fused"] else "unfused",
+                  ("persistent:n_instances=%d" % desc["spec"].get("n_instances", 1)) if desc.get("persistent") else "no_persistent",
                   f"shared_loops:{desc['n_shared_loops']}", "partial_lifetime" if partial else "full_lifetime"]
     else:
         nontrivial = tight or len([n for n in desc["tree"] if n["k"] == "storage"]) >= 3
